@@ -107,7 +107,9 @@ def run(ctx, pid):
     rpath = os.path.join(VERIF, "seeded", "RESULTS.json")
     if os.path.exists(rpath) and not os.environ.get("VERIF_REPO"):
         res = json.load(open(rpath, encoding="utf-8"))
-        mine = sorted(sid for sid, r in res.items() if pid in r.get("fired", {}) and r["fired"][pid])
+        # only the changes written against this property: a report another property's check happened to give for a change is
+        # incidental (it often came from an idiom the reader did not know yet) and may rightly disappear when a reader improves
+        mine = sorted(sid for sid, r in res.items() if r.get("property") == pid and pid in r.get("fired", {}) and r["fired"][pid])
         if mine:
             t4 = chk.rule(pid + ".T4", "stored seeded changes recorded as caught by this check are still caught",
                           "(validates the checker, not the property)")
